@@ -581,7 +581,7 @@ class Scenario:
         else:
             if victim == 'snapshot':
                 victim = 'clean'
-            inject = [{'fn': 'scandir', 'k': rng.randint(0, 9), 'when': 'before', 'action': rng.choice(['EACCES', 'EACCES', 'EIO', 'ENOENT'])}]
+            inject = [{'fn': 'scandir', 'k': rng.randint(0, 9), 'when': 'before', 'action': rng.choice(['EACCES', 'EACCES', 'EIO', 'EMFILE'])}]
         what = f'{victim} with {inject[0]["action"]} at {inject[0]["fn"]} #{inject[0]["k"]} ({inject[0]["when"]})'
         if victim == 'snapshot':
             args, files = self.make_files(user)
